@@ -281,6 +281,8 @@ def register(gen, T):
         functions = T.src("typer/src/typer/functions.rs")
         casting = T.src("typer/src/casting.rs")
         ir_expr = T.src("ir/src/ir_expressions.rs")
+        structs = T.src("typer/src/typer/structs.rs")
+        ir_functions = T.src("ir/src/ir_functions.rs")
 
         def squash(text):
             return re.sub(r'\s+', '', text)
@@ -306,6 +308,12 @@ def register(gen, T):
         wme = squash(fn_body(expr, "write_method"))
         app = squash(impl_fn_body(casting, r'ImplicitConversion', "apply"))
         gty = squash(fn_body(ir_expr, "get_type"))
+        # what a call that stands between declarations can see: when declarations enter a scope and when bodies are checked
+        pfn = squash(fn_body(functions, "parse_function"))
+        psi = squash(fn_body(structs, "parse_struct_internal"))
+        bftb = squash(fn_body(scopes, "build_function_template_body"))
+        est = squash(fn_body(scopes, "ensure_struct_template"))
+        fin = squash(fn_body(ir_functions, "find_instantiation"))
         E = re.escape
         facts = [
             # ---- find_function_type
@@ -387,6 +395,39 @@ def register(gen, T):
              "^" + E("ifletImplicitConversion(_,_,None,None,None)=*self{returnexpr;}") + ".*" +
              E("Expression::Cast(target_type.0,Box::new(expr))") + "$"),
             ("aCastIsAnRvalue", gty, E("Expression::Cast(ty,_)=>Ok(ty.to_rvalue()),")),
+            # ---- when a declaration becomes visible and when a call is resolved (Model/OverloadSeq.lean)
+            ("declarationIsPushedADefinitionOfItReusesTheId", pfn,
+             E("letid=matchcontext.check_existing_functions(&fd.name,&signature,is_definition)?{Some(id)=>{id}None=>{"
+               "letid=context.register_function(fd.name.clone(),signature.clone(),scope,fd.clone())?;"
+               "context.add_function_to_current_scope(id)?;id}};")),
+            ("bodyIsCheckedAtTheDefinitionATemplateBodyIsNot", pfn,
+             E("ifis_definition{ifsignature.template_params.is_empty(){parse_function_body(fd,id,signature,context)?;}else{")),
+            ("allMethodsAreRegisteredBeforeTheFirstBody", psi,
+             E("methods_to_parse.push((ast_func,id,signature));}}}letdef=&mutcontext.module.struct_registry[id.0asusize];"
+               "def.members=members;def.methods=methods_to_parse.iter().map(|(_,id,_)|*id).collect();"
+               "letmutmethods=Vec::new();for(ast_func,id,signature)inmethods_to_parse{ifsignature.template_params.is_empty(){"
+               "ifast_func.body.is_some(){parse_function_body(ast_func,id,signature,context)?;}")),
+            ("templateBodyIsBuiltOncePerInstanceInTheDeclaringScope", bftb,
+             "^" + E("ifself.module.function_registry.get_function_implementation(new_id).is_none(){") + ".*?" +
+             E("letparent_scope_id=self.scopes[self.function_to_scope[&new_id]].parent_scope;") + ".*?" +
+             E("letcaller_scope_position=self.current_scope;self.current_scope=parent_scope_id;") + ".*?" +
+             E("ifast.body.is_some(){parse_function_body(&ast,new_id,signature.clone(),self)?;}") + ".*?" +
+             E("self.current_scope=caller_scope_position;}Ok(())") + "$"),
+            ("aCallOfAnInstanceBuildsItsBody", wfn,
+             E("ifcontext.module.function_registry.get_template_instantiation_data(id).is_some(){"
+               "context.build_function_template_body(id)?};")),
+            ("structTemplateIsInstantiatedOncePerArgumentsInTheDeclaringScope", est,
+             E("ifletSome(id)=struct_template_data.instantiations.get(template_args){") + ".*?" +
+             E("}else{") + ".*?" + E("letcurrent_scope=self.current_scope;self.current_scope=struct_template_data.scope;"
+               "letsid_res=self.instantiate_struct_template(id,ast,template_args,error_loc);"
+               "self.current_scope=current_scope;letsid=sid_res?;") + ".*?" +
+             E("struct_template_data.instantiations.insert(template_args.to_vec(),sid);")),
+            ("instantiationIsFoundAgainByTemplateAndAllArguments", fin,
+             E("ifletSome(instantiation_data)=self.get_template_instantiation_data(other_id)"
+               "&&instantiation_data.parent_id==id&&instantiation_data.template_args==template_args{returnSome(other_id);}")),
+            ("instantiationIsLookedUpBeforeItIsBuilt", bfts,
+             "^" + E("lettemplate_args_no_loc=template_args.iter().map(|t|t.node.clone()).collect::<Vec<_>>();"
+                     "ifletSome(id)=self.module.function_registry.find_instantiation(id,&template_args_no_loc){returnSome(id);}")),
             # ---- who hands over which overload list
             ("innermostScopeWithTheNameWins", fid,
              E("ifletSome(ve)=self.find_identifier_in_scope(scope,leaf_name){returnOk(ve);}}"
@@ -403,7 +444,8 @@ def register(gen, T):
         ]
         out = [T.header("ResolveShape", ["typer/src/typer/expressions.rs", "typer/src/typer/scopes.rs",
                                          "typer/src/typer/types.rs", "typer/src/typer/functions.rs",
-                                         "typer/src/casting.rs", "ir/src/ir_expressions.rs"])]
+                                         "typer/src/typer/structs.rs", "typer/src/casting.rs", "ir/src/ir_expressions.rs",
+                                         "ir/src/ir_functions.rs"])]
         out.append("/-- syntactic facts about the resolution routines (each a regular expression over the comment- and\n"
                    "    white-space-free source); `false` = the source no longer has the shape the model transcribes -/\n")
         out.append("structure Shape where\n" + "".join(f"  {k} : Bool\n" for k, _, _ in facts) + "  deriving DecidableEq, Repr\n\n")
@@ -426,6 +468,28 @@ def register(gen, T):
                            "ifcontext.module.function_registry.get_function_name(*func_id)==member.node{overloads.push(*func_id)}}"),
                          member)
         out.append(f"def objectMethodsAreAllFunctionsOfThatName : Bool := {'true' if objm else 'false'}\n\n")
+        # what the resolution reads: every `context...` path in the four resolution routines, every `self...` path in the
+        # two routines that instantiate a candidate's signature, and the fields a `Context` has at all
+        uses = set()
+        for text in (fft, foc, tit, ntt):
+            for m in re.finditer(r'context((?:\.[a-z_0-9]+)*)', text):
+                uses.add(m.group(0))
+        out.append("/-- every path through `context` in `find_function_type`, `find_overload_casts`, `try_infer_template_type`,\n"
+                   "    `normalize_template_type` (a bare `context` is handed to a callee) -/\n"
+                   "def resolutionContextUses : List String := " + T.lean_list(lean_str(u) for u in sorted(uses)) + "\n\n")
+        iuses = set()
+        for text in (bfts, bit):
+            for m in re.finditer(r'self((?:\.[a-z_0-9]+){1,3})', text):
+                iuses.add(m.group(0))
+        out.append("/-- every path through `self` (up to three segments) in `build_function_template_signature` and\n"
+                   "    `build_intrinsic_template` -/\n"
+                   "def instantiationContextUses : List String := " + T.lean_list(lean_str(u) for u in sorted(iuses)) + "\n\n")
+        cm = re.search(r'pub\s+struct\s+Context\s*\{(.*?)\n\}', scopes, re.S)
+        if not cm:
+            raise ExtractError("struct Context not found in scopes.rs")
+        fields = re.findall(r'^\s*(?:pub(?:\([a-z]+\))?\s+)?([a-z_0-9]+)\s*:', cm.group(1), re.M)
+        out.append("/-- the fields of the typer's `Context`: all the state one call could leave for the next -/\n"
+                   "def contextFields : List String := " + T.lean_list(lean_str(f) for f in fields) + "\n\n")
         for name, text in [("findFunctionType", fft), ("findOverloadCasts", foc), ("tryInferTemplateType", tit),
                            ("normalizeTemplateType", ntt), ("applyTemplateTypeSubstitution", atts),
                            ("checkOutputArguments", coa), ("checkMutablePlace", cmp_)]:
